@@ -102,6 +102,9 @@ Definition calc_push_size (push0 : bool) (x : Z) : Z := zlen (push_bytes push0 x
 Definition to_bytes2 (v : Z) : res (list Z) :=
   if (0 <=? v) && (v <? 65536) then Ok (be_n SYMBOL_SIZE v) else Err Raised.
 
+(* bytes(...) / bytearray.append accept only values in range(256) (ValueError otherwise) *)
+Definition byte_ok (b : Z) : bool := (0 <=? b) && (b <? 256).
+
 (* ---------- pass 1: resolve_symbols *)
 Section Assembler.
   Variable tbl : list (string * Z).   (* get_opcodes(): mnemonic -> byte, for the active EVM version *)
@@ -169,7 +172,10 @@ Section Assembler.
     | IPushLabel l => v <- get sm l ;; push_n_bytes v SYMBOL_SIZE
     | ILabel _ => match slookup tbl "JUMPDEST" with Some b => Ok [b] | None => Err KeyErr end
     | IPushOfstL l o => v <- get sm l ;; push_n_bytes (v + o) SYMBOL_SIZE
-    | IPushOfstC c o => v <- get cm c ;; Ok (push_bytes push0 (v + o))
+    | IPushOfstC c o =>
+        v <- get cm c ;;
+        let b := push_bytes push0 (v + o) in
+        if forallb byte_ok b then Ok b else Err Raised   (* bytes(): only for absurd widths >= 161 bytes *)
     | IInt n => if (0 <=? n) && (n <? 256) then Ok [n] else Err Raised   (* bytearray.append ValueError *)
     | IDataBytes bs => Ok bs
     | IDataLabel l => v <- get sm l ;; to_bytes2 v
